@@ -52,6 +52,19 @@ Theorem C18_roundtrip : forall F (fparse : str -> F) (fstr : F -> str) (feq : F 
 Proof. exact pass_roundtrip. Qed.
 Print Assumptions C18_roundtrip.
 
+(* ---- a pipeline of passes: every position is instantiated from its own spec -- the same class
+        may occur several times with different option values; position i of the result belongs to
+        pass i of the input *)
+Theorem C18_pass_pipeline_roundtrip : forall F (fparse : str -> F) (fstr : F -> str) (feq : F -> F -> bool)
+    (ifeq : Z -> F -> bool) (reg : list (pass_class F)) (ps : list (pass_class F * list (pval F))),
+  Forall (inst_ok F fparse fstr reg) ps ->
+  exists out,
+    pipeline_from_text F fparse reg (print_pipeline F fstr (map (inst_spec F feq ifeq) ps)) = Ok out
+    /\ Forall2 (fun cv o => fst o = cname F (fst cv) /\ rt_equal F feq ifeq (cfields F (fst cv)) (snd cv) (snd o))
+               ps out.
+Proof. exact pass_pipeline_roundtrip. Qed.
+Print Assumptions C18_pass_pipeline_roundtrip.
+
 (* a non-finite float of a float-typed option: written inf/-inf/nan, read as that string, converted
    by float(...); before fdc8560 the conversion was a ValueError *)
 Theorem C18_convert_non_finite : forall F (fparse : str -> F) s, is_non_finite_text s = true ->
